@@ -496,14 +496,13 @@ Definition read_in_family (ids : list (Z * Z)) (i : inst) (r : read) : bool :=
   end.
 
 Definition inst_wf (ids : list (Z * Z)) (i : inst) : bool :=
-  (length (i_family i) =? length (i_super i))%nat
-  && strictly_increasing (i_positions i)                       (* sorted(set(...)) *)
+  strictly_increasing (i_positions i)                          (* sorted(set(...)) *)
   && nodupb (map fst (i_comps i))                              (* a dict *)
   && forallb (read_in_family ids i) (i_reads i)
   && nodupb (map fst (i_trios i)).
 
 Definition run_wf (ids : list (Z * Z)) (cs : list chrom) : bool :=
-  forallb (fun c => forallb (inst_wf ids) (c_insts c) && nodupb (flat_map i_family (c_insts c))) cs.
+  forallb (fun c => forallb (inst_wf ids) (c_insts c) && nodupb (map fst (targets_of (c_insts c)))) cs.
 
 (* ================================================================== specification side
    Boolean predicates evaluated by Coq on the implementation's own files / VCFs (level L1). *)
